@@ -114,6 +114,7 @@ def main(write, HEADER, parse, PKG):
         "curves_by_kind = {2: 'linear', 3: 'quadratic', 4: 'cubic'}",
         "required_curves = interpolation_kinds[kind]", "kind = curves_by_kind[len(height_values)]",
         "f = lagrange(x, y) if kind == 'lagrange' else interp1d(x, y, kind=kind, fill_value=fill_value)",
+        "self.interpolation_table = {'built_for': (kind, fill_value)}",
         "rb_value = self.interpolation_table['rb'](h_eq)",
         "g = f(h_eq).tolist()",
         "return (g_function, rb_value, self.d, h_eq)",
@@ -165,6 +166,9 @@ def main(write, HEADER, parse, PKG):
             "min(height_values) <= h_eq <= max(height_values) or abs(min(height_values) - h_eq) < tolerance"]
     if tests[:3] != want:
         raise Unsupported(f2, fn, f"snapping / extrapolation tests changed: {tests[:3]}")
+    # the table is rebuilt when it was built for another kind / fill mode (Model: `tableFor`)
+    if "len(self.interpolation_table) == 0 or self.interpolation_table.get('built_for') != (kind, fill_value)" not in tests:
+        _DEFERRED.append(Unsupported(f2, fn, "the rebuild condition of the interpolation table changed (model: tableFor)"))
 
     # ------------------------------------------------------------------ borehole_radius_correction
     fn = find_function(t2, "GFunction.borehole_radius_correction")
